@@ -553,6 +553,10 @@ impl Prop for Dynamic {
         let kind = case.kind;
         let factor = FACTORS[case.factor as usize % FACTORS.len()];
         let shared = Shared::new(satwrap::DEFAULT_CAP);
+        let (_scope, chosen) = satwrap::ChoiceScope::for_case(case);
+        if chosen {
+            rec.class("sat-backend-returns-chosen-models");
+        }
         let mut s = match guard(|| make(kind, factor, &shared)) {
             Ok(s) => s,
             Err(p) => return Err(Failure::new(format!("{}/{:?}/constructor-panic", self.pid(), kind), p)),
